@@ -135,7 +135,7 @@ fn check_history(run: &mut Run, id: &str, p: &Prepared, ops: &[(POp, ScoreState)
 pub fn run(tier: &str, seed: u64, only: Option<&str>) -> Run {
     let mut run = Run::default();
     let thorough = tier == "thorough";
-    let (n_random, prefixes): (usize, &[usize]) = if thorough { (3000, &[1, 2, 3, 6, 20, 60]) } else { (500, &[2, 5, 17]) };
+    let (n_random, prefixes): (usize, &[usize]) = if thorough { (30000, &[1, 2, 3, 6, 20, 60, 150]) } else { (3000, &[2, 5, 17]) };
     let mut rng = Rng::new(seed ^ 0x03);
     for c in cases(seed ^ 0x0300, n_random, prefixes) {
         if only.is_some_and(|o| o != c.id) {
